@@ -1480,3 +1480,23 @@ package gedcom
 //@   loop 2 iter takes-iff-equal: matches[i] == (old(matches[i]) || (eq && !old(matches[i])))
 //@   loop 2 iter others-kept: forall(j, implies(j != i, matches[j] == old(matches[j])))
 //@   ensures lengths: implies(len(left) != len(right), !result)
+
+// C12: the parents component of the surrounding similarity is the best
+// similarity over all pairs (a parent family of the one, a parent family of
+// the other), and the neutral 0.5 exactly when there is no such pair - that
+// is, when either individual has no parents on record.
+//@ func IndividualNode.SurroundingSimilarity
+//@   props C12
+//@   ghost nPairs int = 0
+//@   ghost best real = 0.0
+//@   opaque IndividualNode.*, FamilyNode.*, IndividualNodes.*, ChildNodes.*, FamilyNodes.*, SimilarityOptions.*
+//@   oncall FamilyNode.Similarity check pair: arg0 == parents1 && arg1 == parents2
+//@   oncall FamilyNode.Similarity do nPairs = nPairs + 1; best = ite(result > best || nPairs == 0, result, best)
+//@   loop 1 invariant found-iff-pair: didFindParents == (nPairs > 0) && nPairs >= 0 && s != nil
+//@   loop 2 invariant found-iff-pair: didFindParents == (nPairs > 0) && nPairs >= 0 && s != nil
+//@   loop 2 iter each-pair: nPairs - old(nPairs) == 1
+//@   loop 1 nobreak
+//@   loop 2 nobreak
+//@   ghost full bool = false
+//@   oncall NewSurroundingSimilarity#2 do full = true
+//@   ensures neutral-without-pairs: implies(full && nPairs == 0, result != nil && result.ParentsSimilarity == 0.5)
